@@ -87,8 +87,8 @@ Section Final.
   Lemma left_no_H u : is_H_m (dec_side iG eG tpl) u = false.
   Proof.
     unfold is_H_m. rewrite dec_label. destruct (label tpl u) as [a|] eqn:E; [|reflexivity]. simpl.
-    destruct (f_nodes _ _ _ template_fits u a (assoc_in u (gnodes tpl) E)) as (x & y & Ex & _ & Sx & _).
-    unfold sel in Sx. inversion Sx as [[E1 E2 E3]]. rewrite E1. exact (G_not_H A NH_A u x Ex).
+    destruct (f_nodes _ _ _ template_fits u a (assoc_in u (gnodes tpl) E)) as (x & y & Ex & _ & E1 & _).
+    rewrite E1. exact (G_not_H A NH_A u x Ex).
   Qed.
   Lemma pattern_is_left : pattern_of (dec_side iG eG tpl) = dec_side iG eG tpl.
   Proof.
